@@ -89,13 +89,27 @@ func init() {
 		"strings.IndexByte": func(fr *frame, a []value) value {
 			return strings.IndexByte(mustStr("strings.IndexByte", a[0]), a[1].(byte))
 		},
-		"strings.LastIndex":     func(fr *frame, a []value) value { return strings.LastIndex(mustStr("strings.LastIndex", a[0]), mustStr("strings.LastIndex", a[1])) },
-		"strings.LastIndexByte": func(fr *frame, a []value) value { return strings.LastIndexByte(mustStr("strings.LastIndexByte", a[0]), a[1].(byte)) },
-		"strings.IndexRune":     func(fr *frame, a []value) value { return strings.IndexRune(mustStr("strings.IndexRune", a[0]), a[1].(rune)) },
-		"strings.ContainsRune":  func(fr *frame, a []value) value { return strings.ContainsRune(mustStr("strings.ContainsRune", a[0]), a[1].(rune)) },
-		"strings.ContainsAny":   func(fr *frame, a []value) value { return strings.ContainsAny(mustStr("strings.ContainsAny", a[0]), mustStr("strings.ContainsAny", a[1])) },
-		"strings.Count":         func(fr *frame, a []value) value { return strings.Count(mustStr("strings.Count", a[0]), mustStr("strings.Count", a[1])) },
-		"strings.Split":         func(fr *frame, a []value) value { return fromStrs(strings.Split(mustStr("strings.Split", a[0]), mustStr("strings.Split", a[1]))) },
+		"strings.LastIndex": func(fr *frame, a []value) value {
+			return strings.LastIndex(mustStr("strings.LastIndex", a[0]), mustStr("strings.LastIndex", a[1]))
+		},
+		"strings.LastIndexByte": func(fr *frame, a []value) value {
+			return strings.LastIndexByte(mustStr("strings.LastIndexByte", a[0]), a[1].(byte))
+		},
+		"strings.IndexRune": func(fr *frame, a []value) value {
+			return strings.IndexRune(mustStr("strings.IndexRune", a[0]), a[1].(rune))
+		},
+		"strings.ContainsRune": func(fr *frame, a []value) value {
+			return strings.ContainsRune(mustStr("strings.ContainsRune", a[0]), a[1].(rune))
+		},
+		"strings.ContainsAny": func(fr *frame, a []value) value {
+			return strings.ContainsAny(mustStr("strings.ContainsAny", a[0]), mustStr("strings.ContainsAny", a[1]))
+		},
+		"strings.Count": func(fr *frame, a []value) value {
+			return strings.Count(mustStr("strings.Count", a[0]), mustStr("strings.Count", a[1]))
+		},
+		"strings.Split": func(fr *frame, a []value) value {
+			return fromStrs(strings.Split(mustStr("strings.Split", a[0]), mustStr("strings.Split", a[1])))
+		},
 		"strings.SplitN": func(fr *frame, a []value) value {
 			return fromStrs(strings.SplitN(mustStr("strings.SplitN", a[0]), mustStr("strings.SplitN", a[1]), int(asInt64(a[2]))))
 		},
@@ -136,7 +150,9 @@ func init() {
 		"strings.TrimLeft":   strFn2("strings.TrimLeft", strings.TrimLeft),
 		"strings.TrimRight":  strFn2("strings.TrimRight", strings.TrimRight),
 		"strings.Trim":       strFn2("strings.Trim", strings.Trim),
-		"strings.Repeat":     func(fr *frame, a []value) value { return strings.Repeat(mustStr("strings.Repeat", a[0]), int(asInt64(a[1]))) },
+		"strings.Repeat": func(fr *frame, a []value) value {
+			return strings.Repeat(mustStr("strings.Repeat", a[0]), int(asInt64(a[1])))
+		},
 		"strings.Replace": func(fr *frame, a []value) value {
 			return strings.Replace(mustStr("strings.Replace", a[0]), mustStr("strings.Replace", a[1]), mustStr("strings.Replace", a[2]), int(asInt64(a[3])))
 		},
@@ -209,20 +225,22 @@ func init() {
 		"go/token.IsExported": isExportedIntrinsic,
 		"go/types.isExported": isExportedIntrinsic,
 		"go/ast.IsExported":   isExportedIntrinsic,
-		"unicode.IsUpper":  runePred(unicode.IsUpper),
-		"unicode.IsLower":  runePred(unicode.IsLower),
-		"unicode.IsLetter": runePred(unicode.IsLetter),
-		"unicode.IsDigit":  runePred(unicode.IsDigit),
-		"unicode.IsSpace":  runePred(unicode.IsSpace),
-		"unicode.ToUpper":  func(fr *frame, a []value) value { return unicode.ToUpper(a[0].(rune)) },
-		"unicode.ToLower":  func(fr *frame, a []value) value { return unicode.ToLower(a[0].(rune)) },
+		"unicode.IsUpper":     runePred(unicode.IsUpper),
+		"unicode.IsLower":     runePred(unicode.IsLower),
+		"unicode.IsLetter":    runePred(unicode.IsLetter),
+		"unicode.IsDigit":     runePred(unicode.IsDigit),
+		"unicode.IsSpace":     runePred(unicode.IsSpace),
+		"unicode.ToUpper":     func(fr *frame, a []value) value { return unicode.ToUpper(a[0].(rune)) },
+		"unicode.ToLower":     func(fr *frame, a []value) value { return unicode.ToLower(a[0].(rune)) },
 		"unicode/utf8.DecodeRuneInString": func(fr *frame, a []value) value {
 			r, n := utf8.DecodeRuneInString(mustStr("utf8.DecodeRuneInString", a[0]))
 			return tuple{r, n}
 		},
-		"unicode/utf8.RuneCountInString": func(fr *frame, a []value) value { return utf8.RuneCountInString(mustStr("utf8.RuneCountInString", a[0])) },
-		"unicode/utf8.ValidString":       func(fr *frame, a []value) value { return utf8.ValidString(mustStr("utf8.ValidString", a[0])) },
-		"unicode/utf8.RuneLen":           func(fr *frame, a []value) value { return utf8.RuneLen(a[0].(rune)) },
+		"unicode/utf8.RuneCountInString": func(fr *frame, a []value) value {
+			return utf8.RuneCountInString(mustStr("utf8.RuneCountInString", a[0]))
+		},
+		"unicode/utf8.ValidString": func(fr *frame, a []value) value { return utf8.ValidString(mustStr("utf8.ValidString", a[0])) },
+		"unicode/utf8.RuneLen":     func(fr *frame, a []value) value { return utf8.RuneLen(a[0].(rune)) },
 
 		"sort.Slice":       sortSlice(false),
 		"sort.SliceStable": sortSlice(true),
